@@ -47,6 +47,74 @@ def build(spec: Dict[str, Any]) -> Dict[str, Any]:
     return classes
 
 
+def upload_and_api_faults(ctx: Ctx) -> None:
+    """Two more fault kinds of the property: a failing upload to the flight store (MULTIPROCESSING) and missing api_data."""
+    from mloda.user import mloda
+    from mloda_plugins.feature_group.input_data.api_data.api_data import ApiInputDataFeature
+
+    S.install_step_observers()
+    # (1) upload failure: every upload of the run raises; whichever step uploads first must make the call raise
+    for it in range(ctx.budget(9, 60)):
+        kind = ["dag", "chain", "link"][it % 3]
+        try:
+            if kind == "chain":
+                spec = S.gen_chain_spec(ctx.rng, frameworks=("pa", "pd"))
+                spec["roots"][0]["fw"], spec["groups"][0]["fw"] = "pa", spec["groups"][0]["fw"]
+                sess = S.prepare(spec, build(spec))
+            elif kind == "dag":
+                spec = S.gen_spec(ctx.rng, max_feats=4, frameworks=("pa",), allow_options=False)
+                # request an intermediate feature too, so that a requested result is uploaded while later steps still run
+                names = [f for g in spec["groups"] for f in g["features"]]
+                spec["request"] = [{"name": nm, "options": {}} for nm in names[:3]]
+                sess = S.prepare(spec, build(spec))
+            else:
+                spec = S.gen_link_spec(ctx.rng, frameworks=("pa",), nsrc=2, jointypes=("inner", "left", "outer"))
+                sess = S.prepare_link(spec, hooks={"before_calc": _before_calc}, extra_fn=_extra_for)
+        except Exception:
+            continue
+        base = S.run_session(sess, "mp", timeout=BOUND_S)
+        if base.error is not None or base.timed_out:
+            continue
+        for stream in (False, True):
+            S.UPLOAD_FAULT["armed"] = True
+            rr = S.run_session(sess, "mp", stream=stream, timeout=BOUND_S)
+            S.UPLOAD_FAULT.clear()
+            case = {"spec": spec, "kind": "upload", "mode": "mp", "stream": stream}
+            ctx.case("faults_upload", case, True, stream=stream, kind=kind, outcome="timeout" if rr.timed_out else ("raise" if rr.error else "return"))
+            if rr.timed_out:
+                ctx.violation("faults_upload", case, f"run whose uploads fail did not end within {BOUND_S}s (hang)", "timeout", "raise")
+            elif rr.error is None:
+                ctx.violation("faults_upload", case, "run returned although every upload to the flight store raised", "returned", "raise")
+            elif "VERIF-FAULT upload" not in rr.error:
+                ctx.violation("faults_upload", case, "raised error does not carry the original message 'VERIF-FAULT upload'", rr.error[-300:], "VERIF-FAULT upload")
+    S.UPLOAD_FAULT.clear()
+    # (2) missing api_data: prepared with api_data A; a run given api_data that lacks what the plan needs must raise
+    for _ in range(ctx.budget(6, 60)):
+        uid = F.uniq("")
+        cols = {f"ap{uid}_{i}": [ctx.rng.randint(0, 9) for _ in range(3)] for i in range(ctx.rng.randint(1, 2))}
+        key = f"Key{uid}"
+        dname = f"ad{uid}"
+        c0 = next(iter(cols))
+        D = F.make_group(f"AD{uid}", derived={dname: {"parents": [c0], "expr": ["add", ["col", c0], ["const", 1]]}})
+        req = list(cols) + ([dname] if ctx.rng.random() < 0.5 else [])
+        fw = F.FW_SHORT[ctx.rng.choice(["pa", "pd", "py"])]
+        try:
+            sess = mloda.prepare(list(req), compute_frameworks={fw}, plugin_collector=F.collector({D, ApiInputDataFeature}), api_data={key: cols})
+        except Exception:
+            continue
+        for bad in ({}, {"OtherKey" + uid: cols}):
+            for mode in ("sync", "thread"):
+                for stream in (False, True):
+                    rr = S.run_session(sess, mode, api_data=bad, stream=stream, timeout=BOUND_S)
+                    case = {"prepared_api_data": {key: cols}, "run_api_data": bad, "request": req, "mode": mode, "stream": stream}
+                    ctx.case("faults_api_data", case, True, mode=mode, stream=stream, empty=not bad, outcome="timeout" if rr.timed_out else ("raise" if rr.error else "return"))
+                    if rr.timed_out:
+                        ctx.violation("faults_api_data", case, "run with missing api_data did not end (hang)", "timeout", "raise")
+                    elif rr.error is None:
+                        got = len(rr.yielded) if stream else len(rr.results or [])
+                        ctx.violation("faults_api_data", case, f"run returned {got} table(s) although the api_data of this run lacks what the plan reads", "returned", "raise")
+
+
 def run(ctx: Ctx) -> None:
     ctx.extra["rule"] = (
         "fault enumeration: for every step of every generated plan (link-free DAGs, multi-framework DAGs with transform steps, two-source joins) x fault kind "
@@ -65,7 +133,7 @@ def run(ctx: Ctx) -> None:
             classes = build(spec)
             sess = S.prepare(spec, classes)
         elif r < 0.8:
-            spec = S.gen_spec(ctx.rng, max_feats=4, frameworks=("pa", "pd"), allow_multi_fw=True, allow_options=False)
+            spec = S.gen_chain_spec(ctx.rng)
             classes = build(spec)
             sess = S.prepare(spec, classes)
         else:
@@ -148,6 +216,7 @@ def run(ctx: Ctx) -> None:
                             metas.append((case, i, rr))
     S.FAULTS.clear()
     GROUP_FAULTS.clear()
+    upload_and_api_faults(ctx)
     S.stop_flight_server()
     outs = ctx.lean.batch(lean_reqs)
     for rq, (case, i, rr), o in zip(lean_reqs, metas, outs):
